@@ -65,6 +65,25 @@ def decode_exec(p, order, api="recv", finish=True, cb=None, probe="each", releas
             calls += 1
             if probe == "each":
                 probe_now()
+    elif api == "mixed":
+        # the symbols at hand when decoding starts go through of_set_available_symbols, later arrivals one by one
+        cut = len(order) // 2
+        first = sorted(set(order[:cut]))
+        if not maybe_release():
+            out.append("setavail %d %s" % (s, ",".join(str(e) for e in first) if first else "-"))
+            calls += 1
+            if probe == "each":
+                probe_now()
+            for e in order[cut:]:
+                if maybe_release():
+                    done = True
+                    break
+                out.append("recv %d %d" % (s, e))
+                calls += 1
+                if probe == "each":
+                    probe_now()
+        else:
+            done = True
     else:
         if not maybe_release():
             out.append("setavail %d %s" % (s, ",".join(str(e) for e in order) if order else "-"))
